@@ -2254,6 +2254,51 @@ fn section_d(run: &Run, seed: u64, ml: usize, sizes: &[usize], budget_s: f64) {
 			}
 		}
 	}
+	// pass 1b: the same with leaves removed (spent). A proof of a PRESENT leaf does not depend on which other leaves
+	// are spent: the MMR commits to every leaf hash ever appended. For each n up to 40 leaves and several removal
+	// patterns (the last leaf — a lone peak when n is odd —, the first leaf, a sibling, every second leaf, random).
+	{
+		let nmax = ml.min(40);
+		for n in 2..=nmax {
+			if dl.over() {
+				break;
+			}
+			let size = r.size_after[n] as u64;
+			let root = r.root_of_leaves(n);
+			let mut patterns: Vec<(&'static str, Vec<usize>)> = vec![("last_leaf", vec![n - 1]), ("first_leaf", vec![0]), ("every_second", (0..n).step_by(2).collect())];
+			if n >= 3 {
+				patterns.push(("last_two", vec![n - 2, n - 1]));
+				patterns.push(("random", (0..n).filter(|_| prng.chance(1, 3)).collect()));
+			}
+			for (pname, removed) in patterns {
+				let mut be = VB::new();
+				let mut pm = PMMR::new(&mut be);
+				for e in &elems[..n] {
+					let _ = pm.push(e);
+				}
+				for &x in &removed {
+					let _ = pm.prune(r.leaf_pos[x] as u64);
+				}
+				for leaf in (0..n).filter(|x| !removed.contains(x)) {
+					let pos = r.leaf_pos[leaf] as u64;
+					let rp = move || json!({"section": "D1b", "seed": seed, "n_leaves": n, "leaf_pos": pos, "removed": pname});
+					if let Some(Ok(proof)) = guarded(run, &mut l, "PMMR::merkle_proof", "leaves_removed", &rp, || pm.merkle_proof(pos)) {
+						let ref_path = r.proof_path(size, pos);
+						check(run, &mut l, "proof.path==reference_path", "leaves_removed", &rp, &ref_path, || &proof.path);
+						check(run, &mut l, "MerkleProof::verify(honest)", "leaves_removed", &rp, Ok(()), || proof.verify(root, &elems[leaf], pos));
+						l.c("D.proofs_of_present_leaves_with_other_leaves_removed", 1);
+					} else {
+						run.violation(
+							"proof;leaves_removed;event=merkle_proof_error",
+							&format!("PMMR::merkle_proof({}) of a present leaf failed on an MMR of {} leaves with leaves removed ({})", pos, n, pname),
+							rp(),
+						);
+					}
+					l.evals += 1;
+				}
+			}
+		}
+	}
 	l.flush(run);
 	// pass 2: every leaf of every chosen size with every corruption, on prefix views
 	let mut be = VB::new();
@@ -2585,6 +2630,7 @@ fn main() {
 		(4 * nl - 1) as u64,
 	);
 	run.require("huge arguments compared", run.counter("B.args_done"), 20_000);
+	run.require("proofs of present leaves with other leaves removed", run.counter("D.proofs_of_present_leaves_with_other_leaves_removed"), if san { 50 } else { 1000 });
 	run.require(
 		"same PMMR object: rewind + different leaves back to the same size, observed only afterwards",
 		run.counter("C.same_object_repush_to_the_same_size"),
